@@ -45,6 +45,8 @@ def run(tier):
     st["single_junk"] = lc.validate(ck, "C01", lc.specs_single(ck.seed + 12, per_op, junk=True), "alone, non-conforming source")
     st["depth2_junk"] = lc.validate(ck, "C01", lc.specs_depth(ck.seed + 13, nd, 2, junk=True), "depth 2, non-conforming source")
     st["depth3"] = lc.validate(ck, "C01", lc.specs_depth(ck.seed + 14, nd, 3), "depth 3")
+    st["poke"] = lc.validate(ck, "C01", lc.specs_single(ck.seed + 15, per_op, poke=True) + lc.specs_depth(ck.seed + 16, nd, 2, poke=True),
+                             "hot sources, the subscriber's terminal callback makes every still-subscribed source emit again (tear-down window)")
     try:
         from props import c01_core
         c01_core.check_autodetach(ck, tier)
